@@ -185,3 +185,35 @@ Proof.
   pose proof (copy_spec_isomorphic nl) as [H _]. rewrite H.
   apply rename_left_inverse. intro w. unfold copy_block_spec, copy_with, fresh_map. cbn [snd]. lia.
 Qed.
+
+(* ---------------------------------------------------------------- interface, unconnected pins *)
+
+(* every DECLARED wire of the source -- whether or not any net mentions it (a
+   reserved Input pin, a pin left dangling by an earlier in-place optimize, an
+   unused Const) -- has its clone in the copy: _clone_block_and_wires iterates
+   over block_in.wirevector_subset(), not over the wires of the nets *)
+Lemma copy_keeps_every_declared_wire ck nl x :
+  In x (wires nl) -> In (clone_wire ck (fresh_map nl) x) (wires (fst (copy_with ck nl))).
+Proof. intro H. unfold copy_with. cbn [fst wires]. apply in_map. exact H. Qed.
+
+(* the interface of a design: its Input and Output pins with their widths *)
+Definition is_io (x : wire) : bool :=
+  match wkind x with KInput | KOutput => true | _ => false end.
+Definition iface (nl : netlist) : list (wid * Z * kind) :=
+  map (fun x => (wname x, wwidth x, wkind x)) (filter is_io (wires nl)).
+
+Lemma iface_rename f nl :
+  iface (rename f nl) = map (fun p => (f (fst (fst p)), snd (fst p), snd p)) (iface nl).
+Proof.
+  unfold iface, rename. cbn [wires]. induction (wires nl) as [|x r IH]; [reflexivity|].
+  cbn [map filter].
+  replace (is_io (rename_wire f x)) with (is_io x) by reflexivity.
+  destruct (is_io x); cbn [map fst snd rename_wire wname wwidth wkind]; rewrite IH; reflexivity.
+Qed.
+
+Theorem copy_spec_interface nl :
+  iface (fst (copy_block_spec nl))
+  = map (fun p => (snd (copy_block_spec nl) (fst (fst p)), snd (fst p), snd p)) (iface nl).
+Proof.
+  pose proof (copy_spec_isomorphic nl) as [H _]. rewrite H. apply iface_rename.
+Qed.
